@@ -304,6 +304,8 @@ def gen_cases(plane, tier):
             for j, e2 in enumerate(types):
                 for k, e3 in enumerate(types):
                     yield [e1, e2, e3], CONFIGS[(i + 3 * j + 7 * k) % len(CONFIGS)]
+    elif plane == "swaps":
+        yield from _swap_cases(tier)
     elif plane == "chains":
         # 4..5 entries: link chains and files written through earlier links
         files = [(n, k, None) for n in ["a/evil", "b/evil", "a/b/evil", "b/a/evil", "a/a/evil", "evil", "a", "b", "a/b", "b/a", "./a", "./b", "b/.", "a/", "./a/b"] for k in ("file", "empty")]
@@ -317,6 +319,22 @@ def gen_cases(plane, tier):
                     continue
                 for f in files:
                     yield list(ls) + [f], CONFIGS[0]
+
+
+def _swap_cases(tier):
+    """A file is extracted through a harmless link, then a LATER member re-points that link (same output path under another
+    spelling, so that it is not treated as a duplicate name): whatever the extractor still remembers about the file's path
+    (times and modes to apply at the end) now refers to another place."""
+    first = [("b", "symlink", "."), ("a", "symlink", ".")]
+    files = [(n, k, None) for n in ("a/sibling.txt", "a/victim.txt", "a/evil", "a/a/sibling.txt") for k in ("file", "empty")] + [("a/sub", "dir", None)]
+    respell = ["./a", "a/.", "a/", ".//a", "b/a"] if tier != "quick" else ["./a", "a/.", "b/a"]
+    targets = ["b/..", "..", "b/../../outside", "b/../..", "a/..", "{OUT}"] if tier != "quick" else ["b/..", "..", "b/../../outside"]
+    for f in files:
+        for nm in respell:
+            for t in targets:
+                for cfg in CONFIGS:
+                    yield first + [f, (nm, "symlink", t)], cfg
+                    yield first + [f, (nm, "symlink", t), ("c", "file", None)], cfg
 
 
 def shard(task):
@@ -352,7 +370,7 @@ def replay(case):
 def main(tier="quick", seed=0, only=None):
     chk = Check("C03", "exploration", MODULE, tier, seed)
     tasks = []
-    for plane in ("singles", "pairs", "triples", "chains"):
+    for plane in ("singles", "pairs", "triples", "chains", "swaps"):
         if only and plane not in only:
             continue
         n = sum(1 for _ in gen_cases(plane, tier))
@@ -373,7 +391,7 @@ def main(tier="quick", seed=0, only=None):
             "{., .., ../.., a, a/.., b/../.., abs-inside, abs-outside, ../../outside}. ALL single entries x 7 configurations (destination "
             "absolute / relative / None=cwd; destination empty / 'a' is a directory / 'a' is a file; opened by stream = sequential, by path = "
             "one folder per member, workers run in folder order and in reverse order); ALL ordered pairs and ALL ordered triples over the "
-            "tier's reduced alphabets; link chains of 3 (thorough 4) links followed by a file written through them. Oracle: byte/mode/mtime/"
+            "tier's reduced alphabets; link chains of 3 (thorough 4) links followed by a file written through them; swaps: a file or directory extracted through a harmless link that a later member re-points (same output path under another spelling) to the parent, to a sibling directory or outside. Oracle: byte/mode/mtime/"
             "ctime snapshot of everything around the destination identical before and after, whether extraction returned or raised; "
             "tripwire on write-intent audit events leaving the scratch area. Non-trivial = the sequence contains a link, '..', or an absolute path."
         ),
